@@ -95,6 +95,10 @@ func (a *Array) MarshalJSON() ([]byte, error) {
 func (a *Array) MarshalJSONBuffer(dst []byte) ([]byte, error) {
 	dst = append(dst, '[')
 	i := a.Iter()
+	if i.PeekNextTag() == TagArrayEnd {
+		// Empty array.
+		return append(dst, ']'), nil
+	}
 	var elem Iter
 	for {
 		t, err := i.AdvanceIter(&elem)
